@@ -197,13 +197,17 @@ def h_accuracy_dense(ctx, shape):
     ctx.claim('dense_relative_distance', ctx.eq(acc * acc * sumsq(B), sumsq(A - B)))
 
 
-def h_orth_stab_quasi(ctx, d, n, k, neg=False):
+def h_orth_stab_quasi(ctx, d, n, k, neg=False, flag='True'):
     """neg: the pivot core has non-positive entries only (its largest entry is a zero)."""
     Y, W = quasi_diag_tt(ctx, d, n)
     if neg:
         Y[k] = Y[k] * (-1)
+    if flag != 'True':
+        Y[0] = Y[0] * 2 ** 20                # (far from the mantissa range for every moderate choice of the weights)
     Y0 = [G.copy() for G in Y]
-    Z, p = teneva.orthogonalize(Y, k, use_stab=True)
+    # (flag: the switch as the literal True or as another truthy value, e.g. the result of a NumPy comparison)
+    Z, p = teneva.orthogonalize(Y, k, use_stab={'True': True, 'np.bool_': np.True_, 'int': 1,
+                                                 'cmp': np.float64(2.) > 1.}[flag])
     ctx.claim('well_formed', well_formed(Z, [n] * d))
     ctx.claim('Y_eq_2p_Z', ctx.all_eq(ref_full(Z) * pow2(ctx, p), ref_full(Y0)))
     for j in range(d):
@@ -352,6 +356,8 @@ def instances(tier):
             out.append({'func': 'h_orth_stab_quasi', 'params': {'d': d, 'n': n, 'k': k}, 'opts': {'symbolic_signs': False}})
             if n == 2 and k in (0, d - 1):
                 out.append({'func': 'h_orth_stab_quasi', 'params': {'d': d, 'n': n, 'k': k, 'neg': True},
+                            'opts': {'symbolic_signs': False}})
+                out.append({'func': 'h_orth_stab_quasi', 'params': {'d': d, 'n': n, 'k': k, 'flag': 'cmp' if k else 'int'},
                             'opts': {'symbolic_signs': False}})
     out.append({'func': 'h_orth_stab_d2', 'params': {'n1': 2, 'n2': 2, 'r': 2}})
     out.append({'func': 'h_concrete_small_norm', 'params': {}, 'opts': {'concrete_only': True}})
